@@ -67,8 +67,8 @@ impl Display for UnaryOp {
 }
 
 impl BinOp {
-    fn eval(&self, left: i64, right: i64) -> i64 {
-        match self {
+    fn eval(&self, left: i64, right: i64) -> Result<i64, ExprErrorKind> {
+        Ok(match self {
             Self::Equal => (left == right) as i64,
             Self::NotEqual => (left != right) as i64,
             Self::GreaterThan => (left > right) as i64,
@@ -83,9 +83,19 @@ impl BinOp {
             Self::Plus => left.wrapping_add(right),
             Self::Minus => left.wrapping_sub(right),
             Self::Times => left.wrapping_mul(right),
-            Self::Divide => left / right,
-            Self::Reminder => left % right,
-        }
+            Self::Divide => {
+                if right == 0 {
+                    return Err(ExprErrorKind::DivisionByZero);
+                }
+                left.wrapping_div(right)
+            }
+            Self::Reminder => {
+                if right == 0 {
+                    return Err(ExprErrorKind::DivisionByZero);
+                }
+                left.wrapping_rem(right)
+            }
+        })
     }
 }
 
@@ -206,7 +216,7 @@ impl Expr {
                 }
             }
             Self::UnaryOp { op, expr } => Ok(op.eval(expr.eval(ctx)?)),
-            Self::BinOp { op, left, right } => Ok(op.eval(left.eval(ctx)?, right.eval(ctx)?)),
+            Self::BinOp { op, left, right } => Ok(op.eval(left.eval(ctx)?, right.eval(ctx)?)?),
             Self::Func { name, args } => {
                 let entry = FUNC_TABLE
                     .get(name)
